@@ -64,12 +64,22 @@ PowR(a, b) == <<"b", "pow", a, b>>
 Mag2(a, b)    == AddR(Abs(a), Abs(b))
 Mag3(a, b, c) == AddR(Mag2(a, b), Abs(c))
 
-RECURSIVE SumR(_)
-SumR(s) == IF Len(s) = 0 THEN Zero ELSE IF Len(s) = 1 THEN s[1]
-           ELSE AddR(SumR(SubSeq(s, 1, Len(s) - 1)), s[Len(s)])
-RECURSIVE MagSum(_)
-MagSum(s) == IF Len(s) = 0 THEN Zero ELSE IF Len(s) = 1 THEN Abs(s[1])
-             ELSE AddR(MagSum(SubSeq(s, 1, Len(s) - 1)), Abs(s[Len(s)]))
+(* sums and products as balanced trees (bounded recursion depth) *)
+RECURSIVE SumRange(_, _, _)
+SumRange(s, a, b) == IF a > b THEN Zero ELSE IF a = b THEN s[a]
+                     ELSE LET m == (a + b) \div 2 IN AddR(SumRange(s, a, m), SumRange(s, m + 1, b))
+SumR(s) == SumRange(s, 1, Len(s))
+RECURSIVE MagRange(_, _, _)
+MagRange(s, a, b) == IF a > b THEN Zero ELSE IF a = b THEN Abs(s[a])
+                     ELSE LET m == (a + b) \div 2 IN AddR(MagRange(s, a, m), MagRange(s, m + 1, b))
+MagSum(s) == MagRange(s, 1, Len(s))
+RECURSIVE ProdRange(_, _, _)
+ProdRange(s, a, b) == IF a > b THEN One ELSE IF a = b THEN s[a]
+                      ELSE LET m == (a + b) \div 2 IN MulR(ProdRange(s, a, m), ProdRange(s, m + 1, b))
+ProdR(s) == ProdRange(s, 1, Len(s))
+RECURSIVE IntProd(_, _)
+IntProd(a, b) == IF a > b THEN One ELSE IF a = b THEN QI(a)
+                 ELSE LET m == (a + b) \div 2 IN MulR(IntProd(a, m), IntProd(m + 1, b))
 
 (* instantiate the variables of a schema term at a point (sequence of rationals) *)
 RECURSIVE Inst(_, _)
@@ -86,15 +96,14 @@ Inst(e, p) ==
 RECURSIVE FactI(_)
 FactI(n) == IF n <= 1 THEN 1 ELSE n * FactI(n - 1)          \* n <= 12
 (* n! as a term: exact integer up to 12!, a product chain above *)
-RECURSIVE FactT(_)
-FactT(n) == IF n <= 12 THEN QI(FactI(n)) ELSE MulR(FactT(n - 1), QI(n))
+FactT(n) == IF n <= 12 THEN QI(FactI(n)) ELSE MulR(QI(FactI(12)), IntProd(13, n))
 
 (* Pascal's triangle by rows (additions only: no 32-bit overflow for n <= 33) *)
 RECURSIVE BinomRow(_)
 BinomRow(n) == IF n = 0 THEN <<1>>
                ELSE LET r == BinomRow(n - 1)
-                    IN [k \in 1..(n + 1) |-> (IF k = 1 THEN 0 ELSE r[k - 1]) + (IF k = n + 1 THEN 0 ELSE r[k])]
-BinomTab == [n \in 0..33 |-> BinomRow(n)]
+                    IN TLCEval([k \in 1..(n + 1) |-> (IF k = 1 THEN 0 ELSE r[k - 1]) + (IF k = n + 1 THEN 0 ELSE r[k])])
+BinomTab == TLCEval([n \in 0..33 |-> BinomRow(n)])
 Binom(n, k) == IF k < 0 \/ k > n THEN 0 ELSE BinomTab[n][k + 1]
 
 (* Bernoulli numbers B_0..B_n (convention B_1 = -1/2) by the defining recurrence  *)
@@ -102,9 +111,9 @@ Binom(n, k) == IF k < 0 \/ k > n THEN 0 ELSE BinomTab[n][k + 1]
 RECURSIVE BernSeq(_)
 BernSeq(n) ==
   IF n = 0 THEN <<ROne>>
-  ELSE LET prev == BernSeq(n - 1)
-           s == RSumSeq([k \in 1..n |-> RMul(RInt(Binom(n + 1, k - 1)), prev[k])])
-       IN Append(prev, RNeg(RDiv(s, RInt(n + 1))))
+  ELSE LET prev == TLCEval(BernSeq(n - 1))
+           s == RSumSeq(TLCEval([k \in 1..n |-> RMul(RInt(Binom(n + 1, k - 1)), prev[k])]))
+       IN TLCEval(Append(prev, RNeg(RDiv(s, RInt(n + 1)))))
 BMax == 16
 BernTab == BernSeq(BMax)
 Bern(n) == BernTab[n + 1]
@@ -114,11 +123,8 @@ Harm(n) == IF n = 0 THEN RZero ELSE RAdd(Harm(n - 1), Rat(1, n))       \* n <= 2
 (* sum_{k=1}^{n} 1/k^p as a term: exact rational while small, unfolded beyond *)
 RECURSIVE PowI(_, _)
 PowI(b, e) == IF e = 0 THEN 1 ELSE b * PowI(b, e - 1)
-RECURSIVE InvPowSum(_, _, _, _)
 (* sum_{k=1}^{n} 1/(a k + b)^p *)
-InvPowSum(n, a, b, p) ==
-  IF n = 0 THEN Zero
-  ELSE AddR(InvPowSum(n - 1, a, b, p), PowR(QI(a * n + b), QI(-p)))
+InvPowSum(n, a, b, p) == IF n = 0 THEN Zero ELSE SumR([k \in 1..n |-> PowR(QI(a * k + b), QI(0 - p))])
 (* harmonic-type sums as exact rationals where Rat allows (n <= 20, p = 1) *)
 HarmT(n) == IF n <= 20 THEN Q(Harm(n)) ELSE AddR(Q(Harm(20)), SumR([k \in 1..(n - 20) |-> QF(1, 20 + k)]))
 RECURSIVE OddHarm(_)
@@ -126,10 +132,10 @@ OddHarm(n) == IF n = 0 THEN RZero ELSE RAdd(OddHarm(n - 1), Rat(1, 2 * n - 1))  
 OddHarmT(n) == IF n <= 12 THEN Q(OddHarm(n)) ELSE AddR(Q(OddHarm(12)), SumR([k \in 1..(n - 12) |-> QF(1, 2 * (12 + k) - 1)]))
 
 (* polynomials with integer coefficients: sequence c, value sum c[i] t^(i-1) *)
-PolyDer(c) == IF Len(c) <= 1 THEN <<0>> ELSE [i \in 1..(Len(c) - 1) |-> i * c[i + 1]]
+PolyDer(c) == IF Len(c) <= 1 THEN <<0>> ELSE TLCEval([i \in 1..(Len(c) - 1) |-> i * c[i + 1]])
 PolyAt(c, i) == IF i >= 1 /\ i <= Len(c) THEN c[i] ELSE 0
 (* -(1 + t^2) * c *)
-PolyCotStep(c) == LET d == PolyDer(c) IN [i \in 1..(Len(d) + 2) |-> 0 - (PolyAt(d, i) + PolyAt(d, i - 2))]
+PolyCotStep(c) == LET d == PolyDer(c) IN TLCEval([i \in 1..(Len(d) + 2) |-> 0 - (PolyAt(d, i) + PolyAt(d, i - 2))])
 (* d^n/dx^n cot(pi x) = pi^n P_n(cot(pi x)),  P_0 = t,  P_{k+1} = -(1+t^2) P_k' *)
 RECURSIVE CotPoly(_)
 CotPoly(n) == IF n = 0 THEN <<0, 1>> ELSE PolyCotStep(CotPoly(n - 1))
@@ -226,8 +232,562 @@ ZetaEMBranch(s) == IF RLt(s, RZero) THEN "reflection" ELSE IF s.d = 1 /\ s.n % 2
                    ELSE "rational 15-36"
 ZetaEM(s) == EqRec("zeta.em", KOf("zeta.em"), <<s>>, ZetaL(s), ZetaEMT(s), ZetaEMT(s), Abs(EMTerm(s, EMJ + 1)), ZetaEMBranch(s))
 (* zeta(s) = -1/2 - s log(2 pi)/2 + O(s^2), |remainder| <= 1.1 s^2 for |s| <= 2^-20 *)
-ZetaLinS == <<Dy(1, 30), Dy(-1, 30), Dy(1, 27), Dy(-1, 27), Dy(1, 26), Dy(-1, 26), Dy(1, 25), Dy(-1, 25), Dy(1, 24), Dy(-1, 24)>>
+ZetaLinS == <<Dy(1, 29), Dy(-1, 29), Dy(1, 27), Dy(-1, 27), Dy(1, 26), Dy(-1, 26), Dy(1, 25), Dy(-1, 25), Dy(1, 24), Dy(-1, 24)>>
 ZetaLinT(s) == SubR(QF(-1, 2), MulR(Q(s), DivR(Log(MulR(Two, Pi)), Two)))
 ZetaLin(s) == EqRec("zeta.lin", KOf("zeta.lin"), <<s>>, ZetaL(s), ZetaLinT(s), ZetaLinT(s), MulR(QF(11, 10), PowR(Q(s), Two)),
                     IF 2^26 <= s.d THEN "linear" ELSE "outside linear")
+
+(* ======================================================================= *)
+(* Identity schemas: equations over the variables x_1, x_2 with a domain    *)
+(* (list of boxes; a box gives lo, hi and the dyadic resolution per         *)
+(* variable) and guards (terms that must be positive: distance from poles). *)
+(* ======================================================================= *)
+SchemaRec(fam, K, nvars, lhs, rhs, scale, slack, dom, guard) ==
+  [kind |-> "schema", fam |-> fam, K |-> K, nvars |-> nvars, lhs |-> lhs, rhs |-> rhs, scale |-> scale,
+   slack |-> slack, dom |-> dom, guard |-> guard]
+InstCase(S, pt, br) == EqRec(S.fam, S.K, pt, Inst(S.lhs, pt), Inst(S.rhs, pt), Inst(S.scale, pt), Inst(S.slack, pt), br)
+(* distance from the integers: sin^2(pi x) - 1/1000 > 0 *)
+AwayFromIntegers(x) == SubR(PowR(Sin(MulR(Pi, x)), Two), QF(1, 1000))
+XP1   == AddR(X1, One)
+XPH   == AddR(X1, Half)
+OneMX == SubR(One, X1)
+TwoX  == MulR(Two, X1)
+(* sequences of dyadic points k / 2^m *)
+DySeq(ks, m) == [j \in 1..Len(ks) |-> <<Dy(ks[j], m)>>]
+
+(* ------------------------------------------------------------------ Digamma *)
+(* implementation: x <= -1 reflection (pi / tan); poles at 0, -1, -2, ...; x >= 10 asymptotic series;   *)
+(* 2 < x < 10 downward recurrence; x < 1 upward recurrence; [1,2] rational approximation about the root *)
+DigL(x) == Lib("Digamma", <<x>>)
+DigammaIntN  == <<1, 2, 3, 4, 5, 6, 7, 8, 9, 10, 11, 12, 13, 16, 20, 21, 24, 33, 64, 128>>
+DigammaInt(n) == LET h == HarmT(n - 1) IN
+  EqRec("digamma.int", KOf("digamma.int"), <<RInt(n)>>, DigL(QI(n)), SubR(h, EGamma), AddR(h, EGamma), Zero,
+        IF n >= 10 THEN "asymptotic" ELSE IF n > 2 THEN "recurrence down" ELSE "rational 1-2")
+(* psi(n + 1/2) = -gamma - 2 log 2 + 2 sum_{k=1}^{n} 1/(2k-1) *)
+DigHalfT(n)  == AddR(SubR(Neg(EGamma), MulR(Two, Log(Two))), MulR(Two, OddHarmT(n)))
+DigHalfS(n)  == AddR(AddR(EGamma, MulR(Two, Log(Two))), MulR(Two, OddHarmT(n)))
+DigammaHalfN == <<0, 1, 2, 3, 4, 5, 8, 9, 10, 11, 12, 16, 24, 40>>
+DigammaHalf(n) == EqRec("digamma.half", KOf("digamma.half"), <<R(2 * n + 1, 2)>>, DigL(QF(2 * n + 1, 2)), DigHalfT(n), DigHalfS(n), Zero,
+                        IF 2 * n + 1 >= 20 THEN "asymptotic" ELSE IF n >= 2 THEN "recurrence down" ELSE IF n = 1 THEN "rational 1-2" ELSE "recurrence up")
+(* reflection at the half-integers, where cot vanishes: psi(1/2 - n) = psi(1/2 + n) *)
+DigammaNegHalf(n) == EqRec("digamma.neghalf", KOf("digamma.neghalf"), <<R(1 - 2 * n, 2)>>, DigL(QF(1 - 2 * n, 2)), DigHalfT(n), DigHalfS(n), Zero,
+                           IF n = 1 THEN "recurrence up" ELSE "reflection")
+(* Gauss: psi(1/4) = -gamma - pi/2 - 3 log 2, psi(3/4) = -gamma + pi/2 - 3 log 2, then the recurrence *)
+DigQuarterBase(q) == IF q = 1 THEN SubR(SubR(Neg(EGamma), DivR(Pi, Two)), MulR(QI(3), Log(Two)))
+                     ELSE SubR(AddR(Neg(EGamma), DivR(Pi, Two)), MulR(QI(3), Log(Two)))
+DigQuarterMag == AddR(AddR(EGamma, DivR(Pi, Two)), MulR(QI(3), Log(Two)))
+DigQuarterT(n, q) == AddR(DigQuarterBase(q), MulR(QI(4), InvPowSum(n, 4, q - 4, 1)))     \* psi(n + q/4), q = 1, 3
+DigQuarterS(n, q) == AddR(DigQuarterMag, MulR(QI(4), InvPowSum(n, 4, q - 4, 1)))
+DigammaQuarterN == <<0, 1, 2, 3, 5, 8, 9, 10, 11, 20>>
+DigammaQuarter(n, q) == EqRec("digamma.quarter", KOf("digamma.quarter"), <<R(4 * n + q, 4)>>, DigL(QF(4 * n + q, 4)),
+                               DigQuarterT(n, q), DigQuarterS(n, q), Zero, IF 4 * n + q >= 40 THEN "asymptotic" ELSE "recurrence")
+(* psi(1/4 - n) = psi(n + 3/4) - pi,  psi(3/4 - n) = psi(n + 1/4) + pi *)
+DigammaNegQuarter(n, q) ==
+  EqRec("digamma.negquarter", KOf("digamma.negquarter"), <<R(q - 4 * n, 4)>>, DigL(QF(q - 4 * n, 4)),
+        IF q = 1 THEN SubR(DigQuarterT(n, 3), Pi) ELSE AddR(DigQuarterT(n, 1), Pi),
+        AddR(DigQuarterS(n, 4 - q), Pi), Zero, IF q - 4 * n <= -4 THEN "reflection" ELSE "recurrence up")
+DigammaRecS == SchemaRec("digamma.rec", KOf("digamma.rec"), 1, DigL(XP1), AddR(DigL(X1), DivR(One, X1)),
+                         Mag3(DigL(XP1), DigL(X1), DivR(One, X1)), Zero,
+                         << <<Rg(Dy(1, 10), RInt(12), 10)>>, <<Rg(RInt(-12), Dy(-1, 10), 10)>>, <<Rg(RInt(12), RInt(2000), 4)>> >>,
+                         <<AwayFromIntegers(X1)>>)
+DigammaRecP == DySeq(<<1, 64, 256, 512, 768, 1023, 1024, 1025, 1280, 1408, 1536, 1792, 2048, 2049, 2560, 4608, 8704, 9215,
+                       9216, 9217, 9728, 10240, 10752, 20480, 102400, 1024000,
+                       -256, -512, -768, -1023, -1025, -1280, -1536, -2304, -7680, -20736, -102912>>, 10)
+DigammaReflS == SchemaRec("digamma.refl", KOf("digamma.refl"), 1, SubR(DigL(OneMX), DigL(X1)), MulR(Pi, Cot(MulR(Pi, X1))),
+                          Mag3(DigL(OneMX), DigL(X1), MulR(Pi, Cot(MulR(Pi, X1)))), Zero,
+                          << <<Rg(Dy(1, 10), RInt(12), 10)>>, <<Rg(RInt(12), RInt(300), 6)>> >>, <<AwayFromIntegers(X1)>>)
+DigammaReflP == DySeq(<<1, 128, 256, 384, 512, 768, 1023, 1025, 1280, 1536, 2047, 2049, 2304, 5376, 9728, 10496, 11263, 11265, 20608, 102656>>, 10)
+DigammaDupS == SchemaRec("digamma.dup", KOf("digamma.dup"), 1, DigL(TwoX), AddR(MulR(Half, AddR(DigL(X1), DigL(XPH))), Log(Two)),
+                         AddR(Mag3(DigL(TwoX), DigL(X1), DigL(XPH)), Log(Two)), Zero,
+                         << <<Rg(Dy(1, 10), RInt(12), 10)>>, <<Rg(RInt(-6), Dy(-1, 10), 10)>>, <<Rg(RInt(12), RInt(1000), 4)>> >>,
+                         <<AwayFromIntegers(TwoX)>>)
+DigammaDupP == DySeq(<<1, 128, 256, 512, 768, 1024, 1280, 2560, 4864, 5120, 5376, 9984, 10240, 30720, 1024000, -256, -768, -2304, -5376>>, 10)
+
+(* ----------------------------------------------------------------- Trigamma *)
+(* implementation: x <= 0 reflection (poles at the non-positive integers); x < 1 one recurrence step;  *)
+(* rational approximations on [1,2], (2,4], (4,inf)                                                     *)
+TriL(x) == Lib("Trigamma", <<x>>)
+PiSq == PowR(Pi, Two)
+TriBr(x4) == IF x4 <= 0 THEN "reflection" ELSE IF x4 < 4 THEN "recurrence up" ELSE IF x4 <= 8 THEN "rational 1-2"
+             ELSE IF x4 <= 16 THEN "rational 2-4" ELSE "rational 4-inf"         \* x4 = 4 x
+TrigammaIntN == <<1, 2, 3, 4, 5, 6, 8, 12, 20, 50>>
+TrigammaInt(n) == LET t == SubR(DivR(PiSq, QI(6)), InvPowSum(n - 1, 1, 0, 2)) IN
+  EqRec("trigamma.int", KOf("trigamma.int"), <<RInt(n)>>, TriL(QI(n)), t, t, Zero, TriBr(4 * n))
+TriHalfT(n) == SubR(DivR(PiSq, Two), MulR(QI(4), InvPowSum(n, 2, -1, 2)))
+TrigammaHalfN == <<0, 1, 2, 3, 4, 5, 8, 12, 20>>
+TrigammaHalf(n) == EqRec("trigamma.half", KOf("trigamma.half"), <<R(2 * n + 1, 2)>>, TriL(QF(2 * n + 1, 2)), TriHalfT(n), TriHalfT(n), Zero, TriBr(4 * n + 2))
+(* psi1(1/2 - n) = pi^2 - psi1(1/2 + n) *)
+TrigammaNegHalf(n) == LET t == AddR(DivR(PiSq, Two), MulR(QI(4), InvPowSum(n, 2, -1, 2))) IN
+  EqRec("trigamma.neghalf", KOf("trigamma.neghalf"), <<R(1 - 2 * n, 2)>>, TriL(QF(1 - 2 * n, 2)), t, t, Zero, "reflection")
+(* psi1(1/4) = pi^2 + 8 G, psi1(3/4) = pi^2 - 8 G (G Catalan's constant), then the recurrence *)
+TriQuarterT(n, q) == SubR(IF q = 1 THEN AddR(PiSq, MulR(QI(8), Catalan)) ELSE SubR(PiSq, MulR(QI(8), Catalan)),
+                          MulR(QI(16), InvPowSum(n, 4, q - 4, 2)))
+TrigammaQuarterN == <<0, 1, 2, 3, 4, 8>>
+TrigammaQuarter(n, q) == EqRec("trigamma.quarter", KOf("trigamma.quarter"), <<R(4 * n + q, 4)>>, TriL(QF(4 * n + q, 4)),
+                                TriQuarterT(n, q), TriQuarterT(n, q), Zero, TriBr(4 * n + q))
+(* psi1(q/4 - n) = 2 pi^2 - psi1(n + (4-q)/4) *)
+TrigammaNegQuarter(n, q) == LET t == SubR(MulR(Two, PiSq), TriQuarterT(n, 4 - q)) IN
+  EqRec("trigamma.negquarter", KOf("trigamma.negquarter"), <<R(q - 4 * n, 4)>>, TriL(QF(q - 4 * n, 4)), t, t, Zero, "reflection")
+TrigammaRecS == SchemaRec("trigamma.rec", KOf("trigamma.rec"), 1, TriL(XP1), SubR(TriL(X1), PowR(X1, QI(-2))),
+                          Mag3(TriL(XP1), TriL(X1), PowR(X1, QI(-2))), Zero,
+                          << <<Rg(Dy(1, 10), RInt(8), 10)>>, <<Rg(RInt(-8), Dy(-1, 10), 10)>>, <<Rg(RInt(8), RInt(2000), 4)>> >>,
+                          <<AwayFromIntegers(X1)>>)
+TrigammaRecP == DySeq(<<1, 256, 512, 1023, 1024, 1025, 1536, 2047, 2048, 2049, 3072, 3073, 4095, 4096, 4097, 5120, 10240, 102400,
+                        -256, -512, -1023, -1025, -1536, -4608>>, 10)
+TrigammaReflS == SchemaRec("trigamma.refl", KOf("trigamma.refl"), 1, AddR(TriL(OneMX), TriL(X1)), DivR(PiSq, PowR(Sin(MulR(Pi, X1)), Two)),
+                           DivR(PiSq, PowR(Sin(MulR(Pi, X1)), Two)), Zero,
+                           << <<Rg(Dy(1, 10), RInt(8), 10)>>, <<Rg(RInt(8), RInt(300), 6)>> >>, <<AwayFromIntegers(X1)>>)
+TrigammaReflP == DySeq(<<1, 128, 256, 512, 768, 1023, 1025, 1536, 2049, 2560, 4097, 4608, 10496, 102656>>, 10)
+TrigammaDupS == SchemaRec("trigamma.dup", KOf("trigamma.dup"), 1, MulR(QI(4), TriL(TwoX)), AddR(TriL(X1), TriL(XPH)),
+                          MulR(QI(4), Abs(TriL(TwoX))), Zero,
+                          << <<Rg(Dy(1, 10), RInt(8), 10)>>, <<Rg(RInt(8), RInt(1000), 4)>> >>, <<>>)
+TrigammaDupP == DySeq(<<1, 256, 512, 768, 1024, 1536, 2048, 2560, 4096, 4608, 10240, 1024000>>, 10)
+
+(* ---------------------------------------------------------------- Polygamma *)
+(* implementation (n >= 2): x < 0 reflection with the tabulated derivatives of cot; x < min(5/n, 1/4)   *)
+(* series in zeta values about 0; x > 6 + 4n asymptotic (Bernoulli) series; x = 1 and x = 1/2 closed     *)
+(* forms; otherwise upward recurrence to beyond 6 + 4n and the asymptotic series there                  *)
+PolyL(n, x) == Lib("Polygamma", <<QI(n), x>>)
+PolyNs == <<2, 3, 4, 5, 6>>
+SgnP(n) == IF n % 2 = 1 THEN 1 ELSE -1                      \* (-1)^(n+1)
+ZetaConstExact(m) == m = 3 \/ (m % 2 = 0 /\ m <= BMax)
+ZetaConstT(m) == IF m % 2 = 0 /\ m <= BMax THEN ZetaEvenT(m) ELSE IF m = 3 THEN Zeta3 ELSE Lib("Zeta", <<QI(m)>>)
+PolyBr(n, x2) == IF x2 = 2 THEN "x = 1" ELSE IF x2 = 1 THEN "x = 1/2" ELSE IF x2 > 2 * (6 + 4 * n) THEN "asymptotic" ELSE "transition"   \* x2 = 2x
+(* psi_n(m) = (-1)^(n+1) n! (zeta(n+1) - sum_{k<m} k^-(n+1)) *)
+PolyIntM(n) == <<1, 2, 3, 5, 4 * n + 5, 4 * n + 6, 4 * n + 7, 4 * n + 8, 60>>
+PolyIntT(n, m) == MulR(QI(SgnP(n)), MulR(FactT(n), SubR(ZetaConstT(n + 1), InvPowSum(m - 1, 1, 0, n + 1))))
+PolyIntS(n, m) == MulR(FactT(n), AddR(Abs(ZetaConstT(n + 1)), InvPowSum(m - 1, 1, 0, n + 1)))
+PolygammaInt(n, m) ==
+  IF ZetaConstExact(n + 1)
+  THEN EqRec("polygamma.int", KOf("polygamma.int"), <<RInt(n), RInt(m)>>, PolyL(n, QI(m)), PolyIntT(n, m), PolyIntT(n, m), Zero, PolyBr(n, 2 * m))
+  ELSE EqRec("polygamma.intz", KOf("polygamma.intz"), <<RInt(n), RInt(m)>>, PolyL(n, QI(m)), PolyIntT(n, m), PolyIntS(n, m), Zero, PolyBr(n, 2 * m))
+(* psi_n(m + 1/2) = (-1)^(n+1) n! ((2^(n+1) - 1) zeta(n+1) - 2^(n+1) sum_{k=1}^{m} (2k-1)^-(n+1)) *)
+PolyHalfM(n) == <<0, 1, 2, 4 * n + 5, 4 * n + 6, 50>>
+PolyHalfT(n, m) == MulR(QI(SgnP(n)), MulR(FactT(n), SubR(MulR(QI(2^(n + 1) - 1), ZetaConstT(n + 1)),
+                                                           MulR(QI(2^(n + 1)), InvPowSum(m, 2, -1, n + 1)))))
+PolyHalfS(n, m) == MulR(FactT(n), AddR(MulR(QI(2^(n + 1) - 1), Abs(ZetaConstT(n + 1))), MulR(QI(2^(n + 1)), InvPowSum(m, 2, -1, n + 1))))
+PolygammaHalf(n, m) ==
+  IF ZetaConstExact(n + 1)
+  THEN EqRec("polygamma.half", KOf("polygamma.half"), <<RInt(n), R(2 * m + 1, 2)>>, PolyL(n, QF(2 * m + 1, 2)), PolyHalfT(n, m), PolyHalfT(n, m), Zero, PolyBr(n, 2 * m + 1))
+  ELSE EqRec("polygamma.halfz", KOf("polygamma.halfz"), <<RInt(n), R(2 * m + 1, 2)>>, PolyL(n, QF(2 * m + 1, 2)), PolyHalfT(n, m), PolyHalfS(n, m), Zero, PolyBr(n, 2 * m + 1))
+NameN(base, n) == base \o "." \o ToString(n)
+PolyRecS(n) == LET c == MulR(QI((0 - SgnP(n)) * FactI(n)), PowR(X1, QI(0 - n - 1))) IN
+  SchemaRec(NameN("polygamma.rec", n), KOf("polygamma.rec"), 1, PolyL(n, XP1), AddR(PolyL(n, X1), c), Mag3(PolyL(n, XP1), PolyL(n, X1), c), Zero,
+            << <<Rg(Dy(1, 10), RInt(4 * n + 10), 10)>>, <<Rg(RInt(-8), Dy(-1, 10), 10)>>, <<Rg(RInt(4 * n + 10), RInt(500), 4)>> >>,
+            <<AwayFromIntegers(X1)>>)
+PolyRecP(n) == LET b == (6 + 4 * n) * 1024 IN
+  DySeq(<<1, 128, 255, 256, 257, 511, 512, 513, 1023, 1024, 1025, 2560, b - 1024 + 512, b - 1025, b - 1024, b - 1023, b - 1, b, b + 1, b + 512,
+          102400, 409600, -256, -512, -1536, -2304, -7936>>, 10)
+(* (-1)^n psi_n(1-x) - psi_n(x) = pi^(n+1) P_n(cot(pi x)) *)
+AbsPoly(c) == [j \in 1..Len(c) |-> RAbs(c[j])]
+PolyReflS(n) == LET ct == Cot(MulR(Pi, X1))
+                    a  == MulR(QI(0 - SgnP(n)), PolyL(n, OneMX))
+                    b  == PolyL(n, X1) IN
+  SchemaRec(NameN("polygamma.refl", n), KOf("polygamma.refl"), 1, SubR(a, b), MulR(PowR(Pi, QI(n + 1)), HornerT(CotPoly(n), ct, 1)),
+            AddR(Mag2(a, b), MulR(PowR(Pi, QI(n + 1)), HornerT(AbsPoly(CotPoly(n)), Abs(ct), 1))), Zero,
+            << <<Rg(Dy(1, 10), RInt(12), 10)>>, <<Rg(RInt(12), RInt(100), 6)>> >>, <<AwayFromIntegers(X1)>>)
+PolyReflP(n) == DySeq(<<1, 128, 256, 384, 512, 768, 1023, 1025, 1280, 1536, 2304, 5376, (6 + 4 * n) * 1024 - 256, (6 + 4 * n) * 1024 + 256, 51456>>, 10)
+PolyDupS(n) == LET a == MulR(QI(2^(n + 1)), PolyL(n, TwoX)) IN
+  SchemaRec(NameN("polygamma.dup", n), KOf("polygamma.dup"), 1, a, AddR(PolyL(n, X1), PolyL(n, XPH)), Mag3(a, PolyL(n, X1), PolyL(n, XPH)), Zero,
+            << <<Rg(Dy(1, 10), RInt(2 * n + 6), 10)>>, <<Rg(RInt(2 * n + 6), RInt(300), 4)>> >>, <<>>)
+PolyDupP(n) == LET b == (3 + 2 * n) * 1024 IN
+  DySeq(<<1, 64, 127, 128, 129, 256, 512, 768, 1024, 2560, b - 512, b - 1, b, b + 1, b + 512, 51200>>, 10)
+(* orders 0 and 1 are the digamma and trigamma functions *)
+PolyDelegateS(n) == SchemaRec(NameN("polygamma.delegate", n), 0, 1, PolyL(n, X1), IF n = 0 THEN DigL(X1) ELSE TriL(X1),
+                              Abs(IF n = 0 THEN DigL(X1) ELSE TriL(X1)), Zero,
+                              << <<Rg(Dy(1, 10), RInt(30), 10)>>, <<Rg(RInt(-10), Dy(-1, 10), 10)>> >>, <<AwayFromIntegers(X1)>>)
+PolyDelegateP == DySeq(<<1, 512, 1024, 1536, 5120, 10240, 20480, -512, -2560>>, 10)
+
+(* -------------------------------------------- Gamma, log-gamma, multivariate *)
+(* Mgamma(x, 1) = Gamma(x), Mlgamma(x, 1) = log |Gamma(x)|; Mgamma(x, k) = pi^(k(k-1)/4) prod_{j=1}^{k} Gamma(x + (1-j)/2) *)
+GamL(x)  == Lib("Mgamma", <<x, One>>)
+LgamL(x) == Lib("Mlgamma", <<x, One>>)
+GammaHalfT(n)    == MulR(DivR(FactT(2 * n), MulR(PowR(QI(4), QI(n)), FactT(n))), Sqrt(Pi))            \* Gamma(n + 1/2)
+GammaNegHalfT(n) == MulR(DivR(MulR(PowR(QI(-4), QI(n)), FactT(n)), FactT(2 * n)), Sqrt(Pi))            \* Gamma(1/2 - n)
+GammaAtT(x2) == IF x2 % 2 = 0 THEN FactT(x2 \div 2 - 1) ELSE GammaHalfT((x2 - 1) \div 2)               \* Gamma(x2 / 2), x2 > 0
+GammaIntN  == <<1, 2, 3, 4, 5, 6, 10, 13, 20, 21, 22, 23, 30, 100, 170, 171>>
+GammaHalfN == <<0, 1, 2, 3, 4, 5, 10, 20, 50, 85>>
+GammaNegHalfN == <<1, 2, 3, 4, 5, 10, 20, 50, 85>>
+GammaValue(kind, n) ==
+  LET x == IF kind = "int" THEN RInt(n) ELSE IF kind = "half" THEN R(2 * n + 1, 2) ELSE R(1 - 2 * n, 2)
+      t == IF kind = "int" THEN FactT(n - 1) ELSE IF kind = "half" THEN GammaHalfT(n) ELSE GammaNegHalfT(n)
+  IN EqRec("gamma." \o kind, KOf("gamma.value"), <<x>>, GamL(Q(x)), t, t, Zero, kind)
+LgammaValue(kind, n) ==
+  LET x == IF kind = "int" THEN RInt(n) ELSE IF kind = "half" THEN R(2 * n + 1, 2) ELSE R(1 - 2 * n, 2)
+      t == Log(Abs(IF kind = "int" THEN FactT(n - 1) ELSE IF kind = "half" THEN GammaHalfT(n) ELSE GammaNegHalfT(n)))
+  IN EqRec("lgamma." \o kind, KOf("lgamma.value"), <<x>>, LgamL(Q(x)), t, t, Zero, kind)
+MlgKs  == <<1, 2, 3, 4, 5>>
+MlgX2(k) == <<k, k + 1, k + 2, 2 * k + 3, 20, 41, 100>>                     \* 2x; the domain is 2x > k - 1
+MlgTerms(x2, k) == [j \in 1..k |-> Log(GammaAtT(x2 + 1 - j))]
+MlgammaClosed(x2, k) == LET c == MulR(QF(k * (k - 1), 4), Log(Pi)) IN
+  EqRec("mlgamma.closed", KOf("mlgamma.closed"), <<R(x2, 2), RInt(k)>>, Lib("Mlgamma", <<QF(x2, 2), QI(k)>>),
+        AddR(c, SumR(MlgTerms(x2, k))), AddR(c, MagSum(MlgTerms(x2, k))), Zero, "closed")
+MgammaClosed(x2, k) == LET t == MulR(PowR(Pi, QF(k * (k - 1), 4)), ProdR([j \in 1..k |-> GammaAtT(x2 + 1 - j)])) IN
+  EqRec("mgamma.closed", KOf("mgamma.closed"), <<R(x2, 2), RInt(k)>>, Lib("Mgamma", <<QF(x2, 2), QI(k)>>), t, t, Zero, "closed")
+GammaRecS == SchemaRec("gamma.rec", KOf("gamma.rec"), 1, GamL(XP1), MulR(X1, GamL(X1)), Abs(GamL(XP1)), Zero,
+                       << <<Rg(Dy(1, 10), RInt(20), 10)>>, <<Rg(RInt(-20), Dy(-1, 10), 10)>>, <<Rg(RInt(20), RInt(170), 6)>> >>, <<AwayFromIntegers(X1)>>)
+GammaRecP == DySeq(<<1, 256, 512, 1023, 1024, 1025, 1536, 2560, 10240, 20992, 102400, 173568, -256, -512, -1536, -7424, -20224>>, 10)
+GammaReflS == SchemaRec("gamma.refl", KOf("gamma.refl"), 1, MulR(GamL(X1), GamL(OneMX)), DivR(Pi, Sin(MulR(Pi, X1))),
+                        Abs(DivR(Pi, Sin(MulR(Pi, X1)))), Zero, << <<Rg(Dy(1, 10), RInt(20), 10)>>, <<Rg(RInt(20), RInt(150), 6)>> >>, <<AwayFromIntegers(X1)>>)
+GammaReflP == DySeq(<<1, 128, 256, 512, 768, 1023, 1025, 1536, 2304, 10496, 51456, 153856>>, 10)
+GammaDupS == SchemaRec("gamma.dup", KOf("gamma.dup"), 1, MulR(GamL(X1), GamL(XPH)),
+                       MulR(MulR(PowR(Two, SubR(One, TwoX)), Sqrt(Pi)), GamL(TwoX)), Abs(MulR(GamL(X1), GamL(XPH))), Zero,
+                       << <<Rg(Dy(1, 10), RInt(20), 10)>>, <<Rg(RInt(20), RInt(85), 6)>> >>, <<>>)
+GammaDupP == DySeq(<<1, 128, 256, 512, 768, 1024, 1536, 2560, 10240, 51200, 86528>>, 10)
+LgammaRecS == SchemaRec("lgamma.rec", KOf("lgamma.rec"), 1, LgamL(XP1), AddR(LgamL(X1), Log(Abs(X1))), Mag3(LgamL(XP1), LgamL(X1), Log(Abs(X1))), Zero,
+                        << <<Rg(Dy(1, 10), RInt(20), 10)>>, <<Rg(RInt(-20), Dy(-1, 10), 10)>>, <<Rg(RInt(20), RInt(100000), 2)>> >>, <<AwayFromIntegers(X1)>>)
+LgammaRecP == DySeq(<<1, 256, 512, 1023, 1024, 1025, 1536, 2047, 2049, 2560, 10240, 102400, 174080, 1024000, -256, -512, -1536, -7424>>, 10)
+LgammaLogS == SchemaRec("lgamma.log", KOf("lgamma.log"), 1, LgamL(X1), Log(Abs(GamL(X1))), AddR(Abs(LgamL(X1)), One), Zero,
+                        << <<Rg(Dy(1, 10), RInt(20), 10)>>, <<Rg(RInt(-20), Dy(-1, 10), 10)>>, <<Rg(RInt(20), RInt(170), 6)>> >>, <<AwayFromIntegers(X1)>>)
+LgammaLogP == DySeq(<<1, 512, 1024, 1536, 2048, 2560, 10240, 102400, 174080, -512, -1536, -7424>>, 10)
+MlgSumTerms(k) == [j \in 1..k |-> LgamL(AddR(X1, QF(1 - j, 2)))]
+MlgammaSumS(k) == LET c == MulR(QF(k * (k - 1), 4), Log(Pi)) IN
+  SchemaRec(NameN("mlgamma.sum", k), KOf("mlgamma.sum"), 1, Lib("Mlgamma", <<X1, QI(k)>>), AddR(c, SumR(MlgSumTerms(k))), AddR(c, MagSum(MlgSumTerms(k))), Zero,
+            << <<Rg(RAdd(R(k - 1, 2), Dy(1, 6)), RInt(50), 6)>>, <<Rg(RInt(50), RInt(5000), 2)>> >>, <<>>)
+MlgammaSumP(k) == [j \in 1..6 |-> <<RAdd(R(k - 1, 2), <<Dy(1, 6), Dy(1, 1), RInt(1), Dy(13, 2), RInt(20), RInt(1000)>>[j])>>]
+MgammaLogS(k) == SchemaRec(NameN("mgamma.log", k), KOf("mgamma.log"), 1, Lib("Mlgamma", <<X1, QI(k)>>), Log(Lib("Mgamma", <<X1, QI(k)>>)),
+                           AddR(Abs(Lib("Mlgamma", <<X1, QI(k)>>)), QI(k)), Zero,
+                           << <<Rg(RAdd(R(k - 1, 2), Dy(1, 6)), RInt(40), 6)>> >>, <<>>)
+MgammaLogP(k) == [j \in 1..4 |-> <<RAdd(R(k - 1, 2), <<Dy(1, 6), Dy(1, 1), Dy(13, 2), RInt(20)>>[j])>>]
+
+(* ---------------------------------------------------------- incomplete gamma *)
+(* implementation (gamma_incomplete_imp): a >= 170 and not normalised -> logarithmic forms; integer a < 30,   *)
+(* a <= x+1, x > 0.6: finite sum for Q; half-integer a < 30, a <= x+1, x > 0.2: erfc + finite sum; x < 2.2e-16   *)
+(* and a > 1: leading term; x < 0.5: series for P if -0.4/log x < a else small-a series for Q; x < 1.1: series  *)
+(* if 0.75 x < a; otherwise Temme's uniform expansion (a > 20, |x-a|/a < 0.4; a > 200: (x-a)^2/a^2 < 20/a),     *)
+(* series for P if x - 1/(3x) < a, continued fraction for Q else; x >= 709 leaves the finite-sum branches       *)
+GPL(a, x) == Lib("GammaP", <<a, x>>)
+GQL(a, x) == Lib("GammaQ", <<a, x>>)
+GLL(a, x) == Lib("GammaLower", <<a, x>>)
+GUL(a, x) == Lib("GammaUpper", <<a, x>>)
+GD1(a, x) == Lib("GammaPfirstDerivative", <<a, x>>)
+GD2(a, x) == Lib("GammaPsecondDerivative", <<a, x>>)
+(* sum_{k=0}^{n-1} x^k / k!  in Horner form *)
+RECURSIVE ExpHorner(_, _, _)
+ExpHorner(x, k, n) == IF k >= n THEN One ELSE AddR(One, MulR(DivR(x, QI(k)), ExpHorner(x, k + 1, n)))
+ExpSumT(n, x) == ExpHorner(x, 1, n)
+EmX == Exp(Neg(X1))
+GIntAs == <<1, 2, 3, 5, 10, 20, 21, 29, 30, 31, 40>>
+(* P, Q, lower, upper, P', P'' for integer a as schemas in x *)
+GIntS(what, a) ==
+  LET S  == ExpSumT(a, X1)
+      q  == MulR(EmX, S)
+      pp == SubR(One, q)
+      d  == DivR(MulR(PowR(X1, QI(a - 1)), EmX), FactT(a - 1))
+      dom == << <<Rg(Dy(1, 4), RInt(3 * a + 10), 6)>>, <<Rg(RInt(3 * a + 10), RInt(600), 2)>> >>
+      mk(l, r, sc) == SchemaRec(NameN("gamma" \o what \o ".int", a), KOf("gamma" \o what \o ".int"), 1, l, r, sc, Zero, dom, <<>>)
+  IN CASE what = "p"  -> mk(GPL(QI(a), X1), pp, Abs(pp))
+       [] what = "q"  -> mk(GQL(QI(a), X1), q, q)
+       [] what = "lower" -> mk(GLL(QI(a), X1), MulR(FactT(a - 1), pp), Abs(MulR(FactT(a - 1), pp)))
+       [] what = "upper" -> mk(GUL(QI(a), X1), MulR(FactT(a - 1), q), MulR(FactT(a - 1), q))
+       [] what = "d1" -> mk(GD1(QI(a), X1), d, d)
+       [] what = "d2" -> mk(GD2(QI(a), X1), MulR(d, SubR(DivR(QI(a - 1), X1), One)), MulR(d, AddR(DivR(QI(a - 1), X1), One)))
+PosOnly(ks) == SelectSeq(ks, LAMBDA k : k > 0)
+GIntP(a) == DySeq(PosOnly(<<2, 8, 14, 16, 19, 20, 32, 35, 36, 64, 32 * a - 36, 32 * a - 32, 32 * a - 28, 32 * a, 32 * a + 32, 19 * a, 45 * a, 64 * a,
+                            128 * a + 32, 3200, 19200>>), 5)
+(* half-integer a = m + 1/2: P = erf(sqrt x) - e^-x sum_{k<m} x^(k+1/2)/Gamma(k+3/2), Q = erfc(sqrt x) + the same sum *)
+GHalfMs == <<0, 1, 2, 5, 10, 20, 29, 30>>
+HalfSumT(m) == IF m = 0 THEN Zero ELSE SumR([k \in 1..m |-> DivR(PowR(X1, QF(2 * k - 1, 2)), GammaHalfT(k))])
+GHalfS(what, m) ==
+  LET a  == QF(2 * m + 1, 2)
+      hs == MulR(EmX, HalfSumT(m))
+      pp == SubR(Erf(Sqrt(X1)), hs)
+      q  == AddR(Erfc(Sqrt(X1)), hs)
+      d  == DivR(MulR(PowR(X1, QF(2 * m - 1, 2)), EmX), GammaHalfT(m))
+      dom == << <<Rg(Dy(1, 4), RInt(3 * m + 10), 6)>>, <<Rg(RInt(3 * m + 10), RInt(600), 2)>> >>
+      mk(l, r, sc) == SchemaRec(NameN("gamma" \o what \o ".half", m), KOf("gamma" \o what \o ".half"), 1, l, r, sc, Zero, dom, <<>>)
+  IN CASE what = "p"  -> mk(GPL(a, X1), pp, Abs(pp))
+       [] what = "q"  -> mk(GQL(a, X1), q, q)
+       [] what = "d1" -> mk(GD1(a, X1), d, d)
+GHalfP(m) == DySeq(PosOnly(<<2, 5, 6, 7, 8, 16, 32, 35, 36, 64, 32 * m - 20, 32 * m - 16, 32 * m - 12, 32 * m + 16, 32 * m + 48, 19 * m + 9, 45 * m + 22,
+                             64 * m + 32, 128 * m + 96, 3200, 19200>>), 5)
+(* general (a, x): complements and recurrences between library values *)
+GA == X1
+GX == X2
+GDom == << <<Rg(Dy(1, 4), RInt(40), 4), Rg(Dy(1, 4), RInt(80), 4)>>, <<Rg(RInt(40), RInt(160), 2), Rg(RInt(20), RInt(400), 2)>> >>
+GDomBig == GDom \o << <<Rg(RInt(160), RInt(300), 2), Rg(RInt(100), RInt(600), 2)>> >>
+GammaRawT == DivR(MulR(PowR(GX, SubR(GA, One)), Exp(Neg(GX))), GamL(GA))      \* x^(a-1) e^-x / Gamma(a), Gamma from the library
+GammaPQS  == SchemaRec("gammap.pq", KOf("gammap.pq"), 2, AddR(GPL(GA, GX), GQL(GA, GX)), One, One, Zero, GDomBig, <<>>)
+GammaLUS  == SchemaRec("gammap.lu", KOf("gammap.lu"), 2, AddR(GLL(GA, GX), GUL(GA, GX)), GamL(GA), Abs(GamL(GA)), Zero, GDom, <<>>)
+GammaLPS  == SchemaRec("gammap.lowerp", KOf("gammap.lowerp"), 2, GLL(GA, GX), MulR(GPL(GA, GX), GamL(GA)), Abs(GLL(GA, GX)), Zero, GDom, <<>>)
+GammaUQS  == SchemaRec("gammap.upperq", KOf("gammap.upperq"), 2, GUL(GA, GX), MulR(GQL(GA, GX), GamL(GA)), Abs(GUL(GA, GX)), Zero, GDom, <<>>)
+GammaRecPS == LET a1 == AddR(GA, One) IN
+  SchemaRec("gammap.rec", KOf("gammap.rec"), 2, SubR(GPL(GA, GX), GPL(a1, GX)), GD1(a1, GX), Mag3(GPL(GA, GX), GPL(a1, GX), GD1(a1, GX)), Zero, GDomBig, <<>>)
+GammaD1S  == SchemaRec("gammap.d1", KOf("gammap.d1"), 2, GD1(GA, GX), GammaRawT, Abs(GammaRawT), Zero, GDom, <<>>)
+GammaD2S  == SchemaRec("gammap.d2", KOf("gammap.d2"), 2, GD2(GA, GX), MulR(GammaRawT, SubR(DivR(SubR(GA, One), GX), One)),
+                       MulR(Abs(GammaRawT), AddR(Abs(DivR(SubR(GA, One), GX)), One)), Zero, GDom, <<>>)
+GAsSmall == <<Dy(1, 3), Dy(1, 2), Dy(1, 1), Dy(3, 2), RInt(1), Dy(5, 2), Dy(3, 1), RInt(2), Dy(5, 1), Dy(13, 2), RInt(5), Dy(39, 2), RInt(10),
+              Dy(41, 2), Dy(39, 1), RInt(20), Dy(41, 1), RInt(25), Dy(59, 1), RInt(30), Dy(61, 1), RInt(50), RInt(100), RInt(150), Dy(339, 1)>>
+GAsBig   == <<RInt(171), RInt(199), RInt(201), RInt(250)>>
+(* x grid for a given a: fixed small points and multiples / shifts of a on both sides of every changeover *)
+GXsFor(a) == <<Dy(1, 4), Dy(7, 4), Dy(1, 1), Dy(9, 4), RInt(1), Dy(17, 4), Dy(9, 3)>> \o
+             [j \in 1..14 |-> RMul(a, <<Dy(1, 1), Dy(19, 5), Dy(39, 6), Dy(11, 4), Dy(3, 2), RInt(1), Dy(5, 2), Dy(21, 4), Dy(89, 6), Dy(45, 5),
+                                        RInt(2), RInt(4), Dy(7, 3), Dy(9, 3)>>[j])] \o
+             <<RAdd(a, ROne), RAdd(a, Dy(1, 3)), RAdd(RMul(RInt(4), a), ROne)>> \o
+             (IF RLt(ROne, a) THEN <<RSub(a, ROne)>> ELSE <<>>)
+RECURSIVE GPairs(_, _)
+GPairs(as, k) == IF k > Len(as) THEN <<>>
+                 ELSE [j \in 1..Len(GXsFor(as[k])) |-> <<as[k], GXsFor(as[k])[j]>>] \o GPairs(as, k + 1)
+GPointsSmall == GPairs(GAsSmall, 1)
+GPointsAll   == GPointsSmall \o GPairs(GAsBig, 1)
+(* x below the unit roundoff: P(a, x) = x^a/Gamma(a+1) (1 - a x/(a+1) + O(x^2)) *)
+GammaTiny(a) == LET x == PowR(Two, QI(-60))
+                    t == MulR(DivR(PowR(x, QI(a)), FactT(a)), SubR(One, DivR(MulR(QI(a), x), QI(a + 1))))
+  IN EqRec("gammap.tiny", KOf("gammap.tiny"), <<RInt(a)>>, GPL(QI(a), x), t, t, MulR(t, PowR(x, Two)), IF a > 1 THEN "leading term" ELSE "series")
+(* edges x = 0 *)
+GammaEdgeList == <<
+  [fn |-> "GammaP", a |-> Dy(1, 1), v |-> 0], [fn |-> "GammaP", a |-> RInt(1), v |-> 0], [fn |-> "GammaP", a |-> Dy(5, 1), v |-> 0],
+  [fn |-> "GammaQ", a |-> Dy(1, 1), v |-> 1], [fn |-> "GammaQ", a |-> RInt(2), v |-> 1],
+  [fn |-> "GammaPfirstDerivative", a |-> RInt(1), v |-> 1], [fn |-> "GammaPfirstDerivative", a |-> RInt(2), v |-> 0],
+  [fn |-> "GammaPfirstDerivative", a |-> Dy(5, 1), v |-> 0],
+  [fn |-> "GammaPsecondDerivative", a |-> RInt(1), v |-> -1], [fn |-> "GammaPsecondDerivative", a |-> RInt(2), v |-> 1],
+  [fn |-> "GammaPsecondDerivative", a |-> RInt(3), v |-> 0], [fn |-> "GammaPsecondDerivative", a |-> Dy(5, 1), v |-> 0] >>
+GammaEdge(e) == EqRec("gammap.edge", 0, <<e.a, RZero>>, Lib(e.fn, <<Q(e.a), Zero>>), QI(e.v), One, Zero, e.fn)
+
+(* ------------------------------------------------------------------ LogErfc *)
+(* implementation: x^2 < 0.0246 (|x| < 0.15687) series about 0; x > 8 rational approximation of x e^(x^2) erfc x; *)
+(* +Inf -> -Inf; otherwise log(erfc(x))                                                                           *)
+LEL(x) == Lib("LogErfc", <<x>>)
+LogErfcSmallS == LET t == Log(SubR(One, Erf(X1))) IN
+  SchemaRec("logerfc.small", KOf("logerfc.small"), 1, LEL(X1), t, Abs(t), Zero, << <<Rg(Dy(-1, 1), Dy(1, 1), 12)>> >>, <<>>)
+LogErfcSmallP == DySeq(<<0, 1, -1, 512, -512, 1048576, -1048576, 8388608, -8388608, 16777216, -16777216, 20971520, -20971520,
+                         21004288, -21004288, 21069824, -21069824, 22020096, -22020096, 33554432, -33554432, 67108864, -67108864>>, 27)
+LogErfcMidS == LET t == Log(Erfc(X1)) IN
+  SchemaRec("logerfc.erfc", KOf("logerfc.erfc"), 1, LEL(X1), t, Abs(t), Zero, << <<Rg(RInt(-6), RInt(26), 10)>> >>, <<>>)
+LogErfcMidP == DySeq(<<-6144, -5120, -2048, -1024, -512, 512, 1024, 2048, 4096, 6144, 7168, 7680, 8191, 8192, 8193, 8704, 9216, 10240, 16384,
+                       20480, 26624>>, 10)
+(* erfc(x) = e^(-x^2) / (x sqrt pi) * sum_{j>=0} (-1)^j (2j-1)!! / (2 x^2)^j, alternating: |remainder| < first omitted term *)
+RECURSIVE DFact(_)
+DFact(j) == IF j <= 0 THEN 1 ELSE (2 * j - 1) * DFact(j - 1)                      \* (2j-1)!!
+AsymJ == 8
+AsymCoef(j) == Rat(IF j % 2 = 0 THEN DFact(j) ELSE 0 - DFact(j), 2^j)
+AsymSum(x) == SumR([jj \in 1..(AsymJ + 1) |-> MulR(Q(AsymCoef(jj - 1)), PowR(x, QI(0 - 2 * (jj - 1))))])
+LogErfcAsymT(x) == AddR(SubR(Neg(PowR(x, Two)), Log(MulR(x, Sqrt(Pi)))), Log(AsymSum(x)))
+(* arguments: rationals and powers of two (beyond the range of Rat) *)
+LogErfcAsymX == <<QI(9), QI(16), QI(26), QI(27), QI(28), QI(30), QI(100), QI(1000), QI(1000000), PowR(Two, QI(40)), PowR(Two, QI(100)),
+                  PowR(Two, QI(170)), PowR(Two, QI(180)), PowR(Two, QI(300)), PowR(Two, QI(500))>>
+LogErfcAsym(k) == LET x == LogErfcAsymX[k] IN
+  EqRec("logerfc.asym", KOf("logerfc.asym"), <<RInt(k)>>, LEL(x), LogErfcAsymT(x), Abs(LogErfcAsymT(x)),
+        MulR(QF(11, 10), MulR(Q(Rat(DFact(AsymJ + 1), 2^(AsymJ + 1))), PowR(x, QI(0 - 2 * (AsymJ + 1))))), "x > 8")
+
+(* ------------------------------------------------------ BesselI, LogBesselI *)
+(* implementation: x < 0 only for integer order; x = 0; v = 1/2 closed form (exp(x/2)^2 form from x >= 709);     *)
+(* v = 0, v = 1 polynomial / rational approximations on x < 7.75, x < 500, x >= 500; v > 0 and x/v < 1/4 power   *)
+(* series; otherwise Temme's method: v < 0 reflection through K_v, order split n = round(v), Temme series for    *)
+(* x <= 2 / continued fraction CF2 for x > 2, forward recurrence for K, then the asymptotic expansion (x > 100   *)
+(* and ((4v^2+10)/(8x))^4/24 < 10 eps) or CF1 + Wronskian.  LogBesselI mirrors every branch in the log domain.    *)
+BIL(v, x)  == Lib("BesselI", <<v, x>>)
+LBIL(v, x) == Lib("LogBesselI", <<v, x>>)
+(* I_{n+1/2}(x) = sqrt(2/(pi x)) (A_n sinh x + B_n cosh x); A, B polynomials in 1/x by the recurrence *)
+RECURSIVE BesAB(_)
+BesAB(n) == IF n = 0 THEN <<One, Zero>> ELSE IF n = -1 THEN <<Zero, One>>
+            ELSE IF n > 0 THEN LET p == BesAB(n - 1)  pp == BesAB(n - 2)  c == DivV(QI(2 * n - 1), X1)
+                               IN <<Sub(pp[1], Mul(c, p[1])), Sub(pp[2], Mul(c, p[2]))>>
+            ELSE LET p == BesAB(n + 1)  pp == BesAB(n + 2)  c == DivV(QI(2 * n + 3), X1)
+                 IN <<Add(pp[1], Mul(c, p[1])), Add(pp[2], Mul(c, p[2]))>>
+BesHalfT(n) == MulR(Sqrt(DivR(Two, MulR(Pi, X1))), AddR(MulR(BesAB(n)[1], Sinh(X1)), MulR(BesAB(n)[2], Cosh(X1))))
+BesHalfNs == <<-5, -4, -3, -2, -1, 0, 1, 2, 3, 4>>
+BesHalfS(n) == SchemaRec(NameN("besseli.half", n + 5), KOf("besseli.half"), 1, BIL(QF(2 * n + 1, 2), X1), BesHalfT(n), Abs(BesHalfT(n)), Zero,
+                         << <<Rg(Dy(1, 4), RInt(20), 6)>>, <<Rg(RInt(20), RInt(700), 2)>> >>, <<>>)
+LogBesHalfS(n) == SchemaRec(NameN("logbesseli.half", n + 5), KOf("logbesseli.half"), 1, LBIL(QF(2 * n + 1, 2), X1), Log(Abs(BesHalfT(n))),
+                            AddR(Abs(Log(Abs(BesHalfT(n)))), One), Zero,
+                            << <<Rg(Dy(1, 4), RInt(20), 6)>>, <<Rg(RInt(20), RInt(700), 2)>>, <<Rg(RInt(700), RInt(100000), 0)>> >>, <<>>)
+BesHalfXs(n) ==                                   \* units of 1/64; the power series is used below x = v/4 = 8 (2n+1) / 64
+  <<4, 16, 32, 64, 127, 128, 129, 320, 496, 1280, 6400, 6464, 32000, 44800>> \o
+  (IF n >= 0 THEN <<8 * (2 * n + 1) - 1, 8 * (2 * n + 1), 8 * (2 * n + 1) + 1>> ELSE <<>>)
+BesHalfP(n) == DySeq(BesHalfXs(n), 6)
+LogBesHalfP(n) == DySeq(BesHalfXs(n) \o <<45120, 45440, 46080, 64000, 448000, 640000, 1280000, 64000000>>, 6)
+(* I is positive for order >= -1/2 ... the logarithm is the log of |I| only where I > 0: orders -1/2 and above here *)
+BV == X1
+BX == X2
+BesRecS == LET c == MulR(DivR(MulR(Two, BV), BX), BIL(BV, BX)) IN
+  SchemaRec("besseli.rec", KOf("besseli.rec"), 2, SubR(BIL(SubR(BV, One), BX), BIL(AddR(BV, One), BX)), c,
+            Mag3(BIL(SubR(BV, One), BX), BIL(AddR(BV, One), BX), c), Zero,
+            << <<Rg(RInt(-6), RInt(12), 4), Rg(Dy(1, 4), RInt(40), 4)>>, <<Rg(RInt(0), RInt(60), 2), Rg(RInt(1), RInt(600), 2)>> >>, <<>>)
+BesVs == <<Dy(-5, 1), RInt(-1), Dy(-1, 2), Dy(1, 2), Dy(1, 1), Dy(3, 2), RInt(1), Dy(5, 2), Dy(3, 1), RInt(2), Dy(5, 1), RInt(3), Dy(15, 2), Dy(9, 1),
+           RInt(8), Dy(41, 2), Dy(41, 1), RInt(50)>>
+BesXs == <<Dy(1, 4), Dy(1, 2), Dy(1, 1), RInt(1), Dy(127, 6), RInt(2), Dy(129, 6), RInt(4), Dy(31, 2), RInt(8), RInt(20), RInt(100), RInt(101), RInt(300), RInt(600)>>
+BesXsFor(v) == BesXs \o (IF RLt(RZero, v) THEN <<RSub(RDiv(RAdd(v, ROne), RInt(4)), Dy(1, 6)), RAdd(RDiv(RAdd(v, ROne), RInt(4)), Dy(1, 6))>> ELSE <<>>)
+RECURSIVE BesPairs(_, _, _)
+BesPairs(vs, k, big) == IF k > Len(vs) THEN <<>>
+                        ELSE LET xs == BesXsFor(vs[k]) \o big IN [j \in 1..Len(xs) |-> <<vs[k], xs[j]>>] \o BesPairs(vs, k + 1, big)
+BesRecP == BesPairs(BesVs, 1, <<>>)
+LogBesLogS == SchemaRec("logbesseli.log", KOf("logbesseli.log"), 2, LBIL(BV, BX), Log(BIL(BV, BX)), AddR(Abs(LBIL(BV, BX)), One), Zero,
+                        << <<Rg(RInt(0), RInt(12), 4), Rg(Dy(1, 4), RInt(40), 4)>>, <<Rg(RInt(0), RInt(60), 2), Rg(RInt(1), RInt(600), 2)>> >>, <<>>)
+BesVsPos == <<RInt(0), Dy(1, 2), Dy(1, 1), Dy(3, 2), RInt(1), Dy(5, 2), Dy(3, 1), RInt(2), Dy(5, 1), RInt(3), Dy(15, 2), Dy(9, 1), RInt(8), Dy(41, 2), Dy(41, 1), RInt(50)>>
+LogBesLogP == BesPairs(BesVsPos, 1, <<>>)
+LogBesRecS == LET lm == LBIL(SubR(BV, One), BX)  l0 == LBIL(BV, BX)  lp == LBIL(AddR(BV, One), BX)
+                  e1 == Exp(SubR(lm, l0))  e2 == Exp(SubR(lp, l0)) IN
+  SchemaRec("logbesseli.rec", KOf("logbesseli.rec"), 2, SubR(e1, e2), DivR(MulR(Two, BV), BX),
+            AddR(MulR(e1, AddR(One, Mag2(lm, l0))), MulR(e2, AddR(One, Mag2(lp, l0)))), Zero,
+            << <<Rg(RInt(1), RInt(12), 4), Rg(Dy(1, 4), RInt(40), 4)>>, <<Rg(RInt(1), RInt(60), 2), Rg(RInt(1), RInt(600), 2)>>,
+               <<Rg(RInt(1), RInt(60), 2), Rg(RInt(600), RInt(100000), 0)>> >>, <<>>)
+BesVsGe1 == <<RInt(1), Dy(5, 2), Dy(3, 1), RInt(2), Dy(5, 1), RInt(3), Dy(15, 2), Dy(9, 1), RInt(8), Dy(41, 2), Dy(41, 1), RInt(50)>>
+LogBesRecP == BesPairs(BesVsGe1, 1, <<RInt(705), RInt(720), RInt(1000), RInt(7000), RInt(20000), RInt(1000000)>>)
+(* generating function e^x = I_0(x) + 2 sum_{k>=1} I_k(x); the tail beyond M is below 4 (x/2)^(M+1) e^x/(M+1)! *)
+BesGenM == 80
+BesGenXs == <<Dy(1, 2), RInt(1), RInt(2), RInt(5), Dy(15, 1), RInt(8), RInt(20), RInt(30)>>
+BesGen(x) == LET ts == [k \in 1..BesGenM |-> MulR(Two, BIL(QI(k), Q(x)))] IN
+  EqRec("besseli.gen", KOf("besseli.gen"), <<x>>, AddR(BIL(Zero, Q(x)), SumR(ts)), Exp(Q(x)), Exp(Q(x)),
+        MulR(QI(4), MulR(Exp(Q(x)), DivR(PowR(Q(RDiv(x, RInt(2))), QI(BesGenM + 1)), FactT(BesGenM + 1)))), "integer orders")
+BesNegIntS == SchemaRec("besseli.negint", 0, 2, BIL(Neg(BV), BX), BIL(BV, BX), Abs(BIL(BV, BX)), Zero,
+                        << <<Rg(RInt(1), RInt(20), 0), Rg(Dy(1, 4), RInt(100), 4)>> >>, <<>>)
+BesNegIntP == << <<RInt(1), RInt(2)>>, <<RInt(2), Dy(1, 2)>>, <<RInt(3), RInt(10)>>, <<RInt(10), RInt(1)>>, <<RInt(7), RInt(300)>> >>
+(* edges x = 0 *)
+BesEdgeList == << [fn |-> "BesselI", v |-> RInt(0), t |-> One], [fn |-> "BesselI", v |-> RInt(1), t |-> Zero], [fn |-> "BesselI", v |-> Dy(5, 1), t |-> Zero],
+                  [fn |-> "LogBesselI", v |-> RInt(0), t |-> Zero] >>
+BesEdge(e) == EqRec("besseli.edge", 0, <<e.v, RZero>>, Lib(e.fn, <<Q(e.v), Zero>>), e.t, One, Zero, e.fn)
+
+(* ----------------------------------------------------------- LogAdd, LogSub *)
+(* implementation: LogAdd swaps to a <= b, returns b if a is infinite, else b + log1p(exp(a-b));          *)
+(* LogSub returns a if b = -Inf, else a + log1p(-exp(b-a))                                                 *)
+LAL(a, b) == Lib("LogAdd", <<a, b>>)
+LSL(a, b) == Lib("LogSub", <<a, b>>)
+(* exact arguments: LogAdd(x, y) = log(e^x + e^y); an error of one unit roundoff in the larger operand and in log1p *)
+LogAddLinS == LET t == Log(AddR(Exp(X1), Exp(X2))) IN
+  SchemaRec("logadd.lin", KOf("logadd.lin"), 2, LAL(X1, X2), t, AddR(Abs(t), Log(AddR(One, Exp(Neg(Abs(SubR(X1, X2))))))), Zero,
+            << <<Rg(RInt(-40), RInt(40), 6), Rg(RInt(-40), RInt(40), 6)>>, <<Rg(RInt(-800), RInt(800), 2), Rg(RInt(-800), RInt(800), 2)>> >>, <<>>)
+LinPairs == << <<0, 0>>, <<64, 64>>, <<0, 64>>, <<64, 0>>, <<-64, 29>>, <<29, -64>>, <<1, 0>>, <<0, 1>>, <<640, 0>>, <<0, 640>>, <<2368, 0>>, <<0, 2432>>,
+               <<0, -47680>>, <<-47680, 0>>, <<45376, 45312>>, <<-45376, -45312>>, <<51200, -51200>>, <<64000, 63936>>, <<-64000, -64064>>, <<-128, -64>> >>
+LogAddLinP == [j \in 1..Len(LinPairs) |-> <<Dy(LinPairs[j][1], 6), Dy(LinPairs[j][2], 6)>>]
+(* LogSub(x, y) = log(e^x - e^y), x > y; conditioning (|x| e^x + |y| e^y)/(e^x - e^y) *)
+LogSubLinS == LET t == Log(SubR(Exp(X1), Exp(X2))) IN
+  SchemaRec("logsub.lin", KOf("logsub.lin"), 2, LSL(X1, X2), t,
+            AddR(Abs(t), DivR(AddR(MulR(Abs(X1), Exp(X1)), MulR(Abs(X2), Exp(X2))), SubR(Exp(X1), Exp(X2)))), Zero,
+            << <<Rg(RInt(-40), RInt(40), 6), Rg(RInt(-40), RInt(40), 6)>>, <<Rg(RInt(-800), RInt(800), 2), Rg(RInt(-800), RInt(800), 2)>> >>,
+            <<SubR(SubR(X1, X2), QF(1, 128))>>)
+SubPairs == << <<64, 0>>, <<64, 63>>, <<65, 64>>, <<128, 64>>, <<0, -64>>, <<29, -64>>, <<640, 0>>, <<2368, 0>>, <<2432, 0>>, <<0, -47680>>,
+               <<45376, 45312>>, <<-45312, -45376>>, <<51200, -51200>>, <<64000, 63936>>, <<-64000, -64064>>, <<-64, -128>>, <<44, 0>>, <<45, 0>> >>
+LogSubLinP == [j \in 1..Len(SubPairs) |-> <<Dy(SubPairs[j][1], 6), Dy(SubPairs[j][2], 6)>>]
+(* arguments that are logarithms of rationals a, b: LogAdd(log a, log b) = log(a + b); the rounding of the  *)
+(* two logarithms contributes |log a| a/(a+b) + |log b| b/(a+b)                                             *)
+LogAddRatS == LET t == Log(AddR(X1, X2)) IN
+  SchemaRec("logadd.rat", KOf("logadd.rat"), 2, LAL(Log(X1), Log(X2)), t,
+            AddR(AddR(Abs(t), Log(Two)), DivR(AddR(MulR(Abs(Log(X1)), X1), MulR(Abs(Log(X2)), X2)), AddR(X1, X2))), Zero,
+            << <<Rg(Dy(1, 6), RInt(100), 6), Rg(Dy(1, 6), RInt(100), 6)>>, <<Rg(RInt(1), RInt(1000000), 0), Rg(RInt(1), RInt(1000000), 0)>> >>, <<>>)
+LogSubRatS == LET t == Log(SubR(X1, X2)) IN
+  SchemaRec("logsub.rat", KOf("logsub.rat"), 2, LSL(Log(X1), Log(X2)), t,
+            AddR(Abs(t), DivR(AddR(MulR(Abs(Log(X1)), X1), MulR(Abs(Log(X2)), X2)), SubR(X1, X2))), Zero,
+            << <<Rg(Dy(1, 6), RInt(100), 6), Rg(Dy(1, 6), RInt(100), 6)>>, <<Rg(RInt(1), RInt(1000000), 0), Rg(RInt(1), RInt(1000000), 0)>> >>,
+            <<SubR(X1, MulR(X2, QF(65, 64)))>>)
+RatPairs == << <<R(2, 1), R(3, 1)>>, <<R(3, 1), R(2, 1)>>, <<R(1, 3), R(1, 7)>>, <<R(1, 1000), R(1000, 1)>>, <<R(1000, 1), R(1, 1000)>>, <<R(5, 1), R(5, 1)>>,
+              <<R(1, 1), R(1, 1)>>, <<R(1000000, 1), R(1, 1)>>, <<R(7, 3), R(2, 9)>>, <<R(1, 1000000), R(1, 999983)>> >>
+RatSubPairs == << <<R(3, 1), R(2, 1)>>, <<R(1, 3), R(1, 7)>>, <<R(1000, 1), R(1, 1000)>>, <<R(5, 1), R(4, 1)>>, <<R(2, 1), R(1, 1)>>, <<R(1000000, 1), R(1, 1)>>,
+                 <<R(7, 3), R(2, 9)>>, <<R(1, 999983), R(1, 1000000)>>, <<R(11, 10), R(1, 1)>> >>
+(* infinite operands *)
+LogInfList == << [l |-> LAL(QF(3, 2), NInf), r |-> QF(3, 2)], [l |-> LAL(NInf, QF(3, 2)), r |-> QF(3, 2)], [l |-> LAL(QI(-700), NInf), r |-> QI(-700)],
+                 [l |-> LSL(QF(3, 2), NInf), r |-> QF(3, 2)], [l |-> LSL(QI(-5), NInf), r |-> QI(-5)] >>
+LogInf(e) == EqRec("logadd.inf", 0, <<>>, e.l, e.r, Abs(e.r), Zero, "infinite operand")
+
+(* ================================================================= classes *)
+(* poles, domain edges and overflow: the class the result must have.          *)
+(*   nonfinite  a pole: NaN, an infinity or an error                          *)
+(*   undefined  outside the domain: NaN or an error, never a number           *)
+(*   finite / pinf / ninf                                                     *)
+P2(k) == PowR(Two, QI(k))
+ClassList == <<
+  [fam |-> "class.gamma", fn |-> "Mgamma", args |-> <<Zero, One>>, want |-> "nonfinite"],
+  [fam |-> "class.gamma", fn |-> "Mgamma", args |-> <<QI(-1), One>>, want |-> "nonfinite"],
+  [fam |-> "class.gamma", fn |-> "Mgamma", args |-> <<QI(-2), One>>, want |-> "nonfinite"],
+  [fam |-> "class.gamma", fn |-> "Mgamma", args |-> <<QI(-10), One>>, want |-> "nonfinite"],
+  [fam |-> "class.gamma", fn |-> "Mgamma", args |-> <<QI(171), One>>, want |-> "finite"],
+  [fam |-> "class.gamma", fn |-> "Mgamma", args |-> <<QI(172), One>>, want |-> "pinf"],
+  [fam |-> "class.gamma", fn |-> "Mlgamma", args |-> <<Zero, One>>, want |-> "nonfinite"],
+  [fam |-> "class.gamma", fn |-> "Mlgamma", args |-> <<QI(-3), One>>, want |-> "nonfinite"],
+  [fam |-> "class.gamma", fn |-> "Mlgamma", args |-> <<QI(1000000), One>>, want |-> "finite"],
+  [fam |-> "class.gamma", fn |-> "Mlgamma", args |-> <<P2(200), One>>, want |-> "finite"],
+  [fam |-> "class.gamma", fn |-> "Mlgamma", args |-> <<Half, Two>>, want |-> "nonfinite"],
+  [fam |-> "class.factorial", fn |-> "Factorial", args |-> <<QI(170)>>, want |-> "finite"],
+  [fam |-> "class.factorial", fn |-> "Factorial", args |-> <<QI(171)>>, want |-> "pinf"],
+  [fam |-> "class.digamma", fn |-> "Digamma", args |-> <<Zero>>, want |-> "nonfinite"],
+  [fam |-> "class.digamma", fn |-> "Digamma", args |-> <<QI(-1)>>, want |-> "nonfinite"],
+  [fam |-> "class.digamma", fn |-> "Digamma", args |-> <<QI(-2)>>, want |-> "nonfinite"],
+  [fam |-> "class.digamma", fn |-> "Digamma", args |-> <<QI(-100)>>, want |-> "nonfinite"],
+  [fam |-> "class.digamma", fn |-> "Digamma", args |-> <<P2(1000)>>, want |-> "finite"],
+  [fam |-> "class.digamma", fn |-> "Digamma", args |-> <<P2(-1000)>>, want |-> "finite"],
+  [fam |-> "class.trigamma", fn |-> "Trigamma", args |-> <<Zero>>, want |-> "nonfinite"],
+  [fam |-> "class.trigamma", fn |-> "Trigamma", args |-> <<QI(-1)>>, want |-> "nonfinite"],
+  [fam |-> "class.trigamma", fn |-> "Trigamma", args |-> <<QI(-7)>>, want |-> "nonfinite"],
+  [fam |-> "class.trigamma", fn |-> "Trigamma", args |-> <<P2(1000)>>, want |-> "finite"],
+  [fam |-> "class.trigamma", fn |-> "Trigamma", args |-> <<P2(-400)>>, want |-> "finite"],
+  [fam |-> "class.trigamma", fn |-> "Trigamma", args |-> <<P2(-600)>>, want |-> "pinf"],
+  [fam |-> "class.polygamma", fn |-> "Polygamma", args |-> <<Two, Zero>>, want |-> "nonfinite"],
+  [fam |-> "class.polygamma", fn |-> "Polygamma", args |-> <<QI(3), Zero>>, want |-> "nonfinite"],
+  [fam |-> "class.polygamma", fn |-> "Polygamma", args |-> <<Two, QI(-1)>>, want |-> "nonfinite"],
+  [fam |-> "class.polygamma", fn |-> "Polygamma", args |-> <<QI(3), QI(-2)>>, want |-> "nonfinite"],
+  [fam |-> "class.polygamma", fn |-> "Polygamma", args |-> <<Two, P2(100)>>, want |-> "finite"],
+  [fam |-> "class.polygamma", fn |-> "Polygamma", args |-> <<QI(3), P2(-60)>>, want |-> "finite"],
+  [fam |-> "class.zeta", fn |-> "Zeta", args |-> <<One>>, want |-> "nonfinite"],
+  [fam |-> "class.zeta", fn |-> "Zeta", args |-> <<QI(-170)>>, want |-> "finite"],
+  [fam |-> "class.zeta", fn |-> "Zeta", args |-> <<QI(-171)>>, want |-> "finite"],
+  [fam |-> "class.zeta", fn |-> "Zeta", args |-> <<QI(-257)>>, want |-> "finite"],
+  [fam |-> "class.zeta", fn |-> "Zeta", args |-> <<QI(-259)>>, want |-> "finite"],
+  [fam |-> "class.zeta", fn |-> "Zeta", args |-> <<QF(-201, 2)>>, want |-> "finite"],
+  [fam |-> "class.zeta", fn |-> "Zeta", args |-> <<P2(100)>>, want |-> "finite"],
+  [fam |-> "class.zeta", fn |-> "Zeta", args |-> <<PInf>>, want |-> "finite"],
+  [fam |-> "class.gammap", fn |-> "GammaP", args |-> <<Zero, One>>, want |-> "undefined"],
+  [fam |-> "class.gammap", fn |-> "GammaP", args |-> <<QI(-1), One>>, want |-> "undefined"],
+  [fam |-> "class.gammap", fn |-> "GammaP", args |-> <<QF(-1, 2), One>>, want |-> "undefined"],
+  [fam |-> "class.gammap", fn |-> "GammaQ", args |-> <<Zero, One>>, want |-> "undefined"],
+  [fam |-> "class.gammap", fn |-> "GammaQ", args |-> <<QI(-2), QI(3)>>, want |-> "undefined"],
+  [fam |-> "class.gammap", fn |-> "GammaLower", args |-> <<Zero, One>>, want |-> "undefined"],
+  [fam |-> "class.gammap", fn |-> "GammaLower", args |-> <<QI(-1), Two>>, want |-> "undefined"],
+  [fam |-> "class.gammap", fn |-> "GammaUpper", args |-> <<QI(-1), Two>>, want |-> "undefined"],
+  [fam |-> "class.gammap", fn |-> "GammaP", args |-> <<One, QI(-1)>>, want |-> "undefined"],
+  [fam |-> "class.gammap", fn |-> "GammaQ", args |-> <<Two, QI(-1)>>, want |-> "undefined"],
+  [fam |-> "class.gammap", fn |-> "GammaP", args |-> <<Half, QI(-1)>>, want |-> "undefined"],
+  [fam |-> "class.gammap", fn |-> "GammaPfirstDerivative", args |-> <<Zero, One>>, want |-> "undefined"],
+  [fam |-> "class.gammap", fn |-> "GammaPfirstDerivative", args |-> <<One, QI(-1)>>, want |-> "undefined"],
+  [fam |-> "class.gammap", fn |-> "GammaPfirstDerivative", args |-> <<Half, Zero>>, want |-> "pinf"],
+  [fam |-> "class.gammap", fn |-> "GammaPsecondDerivative", args |-> <<Half, Zero>>, want |-> "ninf"],
+  [fam |-> "class.gammap", fn |-> "GammaPsecondDerivative", args |-> <<QF(3, 2), Zero>>, want |-> "pinf"],
+  [fam |-> "class.gammap", fn |-> "GammaP", args |-> <<Two, QI(100000)>>, want |-> "finite"],
+  [fam |-> "class.gammap", fn |-> "GammaQ", args |-> <<QF(9, 4), QI(100000)>>, want |-> "finite"],
+  [fam |-> "class.gammap", fn |-> "GammaP", args |-> <<QI(100000), QI(10)>>, want |-> "finite"],
+  [fam |-> "class.gammap", fn |-> "GammaUpper", args |-> <<QI(172), One>>, want |-> "pinf"],
+  [fam |-> "class.logerfc", fn |-> "LogErfc", args |-> <<QI(-30)>>, want |-> "finite"],
+  [fam |-> "class.logerfc", fn |-> "LogErfc", args |-> <<Neg(P2(1000))>>, want |-> "finite"],
+  [fam |-> "class.logerfc", fn |-> "LogErfc", args |-> <<NInf>>, want |-> "finite"],
+  [fam |-> "class.logerfc", fn |-> "LogErfc", args |-> <<QI(30)>>, want |-> "finite"],
+  [fam |-> "class.logerfc", fn |-> "LogErfc", args |-> <<P2(100)>>, want |-> "finite"],
+  [fam |-> "class.logerfc", fn |-> "LogErfc", args |-> <<P2(170)>>, want |-> "finite"],
+  [fam |-> "class.logerfc", fn |-> "LogErfc", args |-> <<P2(180)>>, want |-> "finite"],
+  [fam |-> "class.logerfc", fn |-> "LogErfc", args |-> <<P2(400)>>, want |-> "finite"],
+  [fam |-> "class.logerfc", fn |-> "LogErfc", args |-> <<P2(511)>>, want |-> "finite"],
+  [fam |-> "class.logerfc", fn |-> "LogErfc", args |-> <<P2(600)>>, want |-> "ninf"],
+  [fam |-> "class.logerfc", fn |-> "LogErfc", args |-> <<PInf>>, want |-> "ninf"],
+  [fam |-> "class.besseli", fn |-> "BesselI", args |-> <<Two, QI(700)>>, want |-> "finite"],
+  [fam |-> "class.besseli", fn |-> "BesselI", args |-> <<Two, QI(800)>>, want |-> "pinf"],
+  [fam |-> "class.besseli", fn |-> "BesselI", args |-> <<Half, QI(800)>>, want |-> "pinf"],
+  [fam |-> "class.besseli", fn |-> "BesselI", args |-> <<QF(-1, 2), Zero>>, want |-> "nonfinite"],
+  [fam |-> "class.besseli", fn |-> "BesselI", args |-> <<QF(-5, 2), Zero>>, want |-> "nonfinite"],
+  [fam |-> "class.besseli", fn |-> "BesselI", args |-> <<QF(3, 2), QI(-2)>>, want |-> "undefined"],
+  [fam |-> "class.logbesseli", fn |-> "LogBesselI", args |-> <<Zero, QI(800)>>, want |-> "finite"],
+  [fam |-> "class.logbesseli", fn |-> "LogBesselI", args |-> <<One, QI(800)>>, want |-> "finite"],
+  [fam |-> "class.logbesseli", fn |-> "LogBesselI", args |-> <<Half, QI(800)>>, want |-> "finite"],
+  [fam |-> "class.logbesseli", fn |-> "LogBesselI", args |-> <<Two, QI(800)>>, want |-> "finite"],
+  [fam |-> "class.logbesseli", fn |-> "LogBesselI", args |-> <<QF(5, 2), QI(800)>>, want |-> "finite"],
+  [fam |-> "class.logbesseli", fn |-> "LogBesselI", args |-> <<Two, QI(7000)>>, want |-> "finite"],
+  [fam |-> "class.logbesseli", fn |-> "LogBesselI", args |-> <<QF(3, 2), QI(20000)>>, want |-> "finite"],
+  [fam |-> "class.logbesseli", fn |-> "LogBesselI", args |-> <<QI(10), QI(100000)>>, want |-> "finite"],
+  [fam |-> "class.logbesseli", fn |-> "LogBesselI", args |-> <<Two, QI(1000000)>>, want |-> "finite"],
+  [fam |-> "class.logbesseli", fn |-> "LogBesselI", args |-> <<Zero, P2(100)>>, want |-> "finite"],
+  [fam |-> "class.logbesseli", fn |-> "LogBesselI", args |-> <<One, Zero>>, want |-> "ninf"],
+  [fam |-> "class.logbesseli", fn |-> "LogBesselI", args |-> <<QF(5, 2), Zero>>, want |-> "ninf"],
+  [fam |-> "class.logbesseli", fn |-> "LogBesselI", args |-> <<QF(-1, 2), Zero>>, want |-> "pinf"],
+  [fam |-> "class.logadd", fn |-> "LogAdd", args |-> <<NInf, NInf>>, want |-> "ninf"],
+  [fam |-> "class.logadd", fn |-> "LogAdd", args |-> <<PInf, One>>, want |-> "pinf"],
+  [fam |-> "class.logadd", fn |-> "LogAdd", args |-> <<One, PInf>>, want |-> "pinf"],
+  [fam |-> "class.logadd", fn |-> "LogAdd", args |-> <<NInf, PInf>>, want |-> "pinf"],
+  [fam |-> "class.logadd", fn |-> "LogAdd", args |-> <<QI(700), QI(705)>>, want |-> "finite"],
+  [fam |-> "class.logadd", fn |-> "LogAdd", args |-> <<P2(1000), P2(1000)>>, want |-> "finite"],
+  [fam |-> "class.logsub", fn |-> "LogSub", args |-> <<One, One>>, want |-> "ninf"],
+  [fam |-> "class.logsub", fn |-> "LogSub", args |-> <<QI(-700), QI(-700)>>, want |-> "ninf"],
+  [fam |-> "class.logsub", fn |-> "LogSub", args |-> <<P2(100), P2(100)>>, want |-> "ninf"],
+  [fam |-> "class.logsub", fn |-> "LogSub", args |-> <<NInf, NInf>>, want |-> "ninf"],
+  [fam |-> "class.logsub", fn |-> "LogSub", args |-> <<One, Two>>, want |-> "undefined"],
+  [fam |-> "class.logsub", fn |-> "LogSub", args |-> <<NInf, One>>, want |-> "undefined"],
+  [fam |-> "class.logsub", fn |-> "LogSub", args |-> <<PInf, One>>, want |-> "pinf"]
+>>
+ClassCase(k) == LET c == ClassList[k] IN ClassRec(c.fam, <<>>, c.fn, c.args, c.want)
 =============================================================================
